@@ -950,6 +950,18 @@ def red_arg(v, obs, m):
     return ["one", obs.term(v)]
 
 
+def index_counts(m):
+    """the four dependency indices with multiplicities (empty entries dropped), keyed by printed refs"""
+    out = {}
+    for name in ("rdeps", "rtasks", "deptasks", "tartasks"):
+        d = {}
+        for k, rc in getattr(m, name).items():
+            for k2, n in rc.items():
+                d[f"{k} -> {k2}"] = n
+        out[name] = d
+    return out
+
+
 def run_c12(inp):
     obs = Observer(inp["classes"], inp["fns"])
     out = []
@@ -1005,6 +1017,12 @@ def run_c12(inp):
             try:
                 if m2.dump() != m.dump():
                     problems.append(f"dump() differs: {m.dump()} vs {m2.dump()}")
+                ic1, ic2 = index_counts(m), index_counts(m2)
+                if ic1 != ic2:
+                    diff = [(n, k, ic1[n].get(k), ic2[n].get(k)) for n in ic1 for k in set(ic1[n]) | set(ic2[n])
+                            if ic1[n].get(k) != ic2[n].get(k)]
+                    problems.append(f"the restored manager's dependency indices differ from the original's (entry, original count, "
+                                    f"restored count): {sorted(diff)[:4]} - a later unregister/re-assignment then behaves differently")
                 try:
                     m2.verify()
                 except Exception as ex:
